@@ -1,3 +1,3 @@
 from vlib import H
 PROPERTY='T00'; CLAIM='dev'; DISABLED=True
-HARNESSES=[H('um','um.cpp','h_um',variants=[{'STEP':1},{'STEP':2},{'STEP':3}],unwind=20,timeout=60,objbits=10,memunwind=112)]
+HARNESSES=[H('sc','sc.cpp','h_sc',link=['script/script.cpp','uint256.cpp'],shadow=['nofmt'],unwind=8,timeout=100,objbits=10,memunwind=40)]
